@@ -17,7 +17,7 @@ from fractions import Fraction as Fr
 import numpy as np
 
 from .. import core
-from ..core import Check, MachineryError, run_tlc
+from ..core import pyf, Check, MachineryError, run_tlc
 
 TRUNCS = [2, 4, 6, 8, 10, 12, 14, 16, 18, 20]
 
@@ -70,7 +70,7 @@ def run(tier, seed):
                 ck.violation({"clause": "table_missing", "l": l, "N": Ntr}, "no table eccentricity_funcs_trunc%d for l=%d" % (Ntr, l), {})
                 continue
             try:
-                tab = fn.py_func(e)
+                tab = pyf(fn)(e)
             except Exception as ex:
                 raise MachineryError("table l=%d N=%d cannot be evaluated on the series argument: %s: %s" % (l, Ntr, type(ex).__name__, ex))
             ntab += 1
